@@ -1,10 +1,12 @@
 import HL.Driver.GJson
+import HL.Model.Pipeline
 open Lean
 namespace HL.Driver.C03
 open HL HL.Driver
 
 /-- op c03.journal: a journal generated from grammar G with its ground truth, and the real
-    parser's result.  spec_ok = no syntax errors and the tree agrees with the ground truth. -/
+    parser's result.  model = `Pipeline.parseText` (lexer model + parser model) on the text;
+    spec_ok = no syntax errors and the implementation's tree agrees with the ground truth. -/
 def journal (j : Json) : Json :=
   let truth := gJournalOf (jget j "truth")
   let impl := jget j "impl"
@@ -15,7 +17,10 @@ def journal (j : Json) : Json :=
       s!"syntax error on a journal from grammar G: {String.fromUTF8! (ByteArray.mk (errs.head!.msg.toArray))} at line {errs.head!.pos.line}"
     else G.firstDisagreement truth tree
   let known := G.knownShapes truth
-  Json.mkObj [("spec_ok", ok), ("in_domain", true), ("known", Json.arr (known.toArray.map Json.str)),
+  -- end-to-end correspondence: lexer model composed with parser model on the same text
+  let (mj, merrs) := HL.Pipeline.parseText Classes.go (jhex j "text")
+  let model := Json.mkObj [("journal", journalJ mj), ("errors", arrJ perrJ merrs)]
+  Json.mkObj [("model", model), ("spec_ok", ok), ("in_domain", true), ("known", Json.arr (known.toArray.map Json.str)),
     ("why", why), ("nontrivial", true)]
 
 def handle (op : String) (j : Json) : Option Json :=
